@@ -136,7 +136,7 @@ impl Reader for MockReader {
     type Err = MockErr;
     fn fill_data(&mut self, d: &mut MockSet) -> Option<Result<(), MockErr>> {
         for _ in 0..self.yields {
-            shuttle::thread::yield_now();
+            crate::sys::yield_now();
         }
         if self.errored {
             rec(&self.obs, Evt::FillAfterErr);
@@ -198,7 +198,7 @@ pub fn execute_mock(cfg: &ParCfg, obs: &SharedObs) {
             let idx = set.idx.unwrap_or(usize::MAX);
             let y = if cfg_w.work_yields.is_empty() { 0 } else { cfg_w.work_yields[idx % cfg_w.work_yields.len()] };
             for _ in 0..y {
-                shuttle::thread::yield_now();
+                crate::sys::yield_now();
             }
             rec(&o_w, Evt::Work { idx, tag: set.tag });
             out_of(idx, &set.payload)
@@ -234,7 +234,7 @@ pub fn execute_mock(cfg: &ParCfg, obs: &SharedObs) {
                     }
                 }
                 for _ in 0..cfg_c.consumer_yields {
-                    shuttle::thread::yield_now();
+                    crate::sys::yield_now();
                 }
             }
         },
@@ -244,56 +244,4 @@ pub fn execute_mock(cfg: &ParCfg, obs: &SharedObs) {
     o.returned = true;
 }
 
-/// Runs `body` `iterations` times under the given seeded scheduler. Returns the number of executions, or
-/// Err if shuttle panicked (deadlock, step bound, panic inside a task - including the oracle panics raised
-/// by the callers).
-pub fn run_under<F>(sched: Sched, seed: u64, iterations: usize, body: F) -> Result<usize, crate::engine::Failure>
-where
-    F: Fn() + Send + Sync + Clone + 'static,
-{
-    let r = run_inner(sched, seed, iterations, body.clone());
-    if let Err(f) = &r {
-        if f.msg.contains("did not exercise any concurrency") {
-            // PCT refuses executions with (almost) no scheduling points (e.g. an init closure failing at once):
-            // sample those with the random scheduler instead
-            if let Sched::Pct(_) = sched {
-                return run_inner(Sched::Random, seed, iterations, body);
-            }
-        }
-    }
-    r
-}
-
-fn run_inner<F>(sched: Sched, seed: u64, iterations: usize, body: F) -> Result<usize, crate::engine::Failure>
-where
-    F: Fn() + Send + Sync + 'static,
-{
-    let mut config = shuttle::Config::new();
-    config.failure_persistence = shuttle::FailurePersistence::None;
-    config.max_steps = shuttle::MaxSteps::FailAfter(2_000_000);
-    config.silence_warnings = true;
-    let iters = std::cell::Cell::new(0usize);
-    let r = crate::engine::guarded(|| {
-        let n = match sched {
-            Sched::Random => shuttle::Runner::new(shuttle::scheduler::RandomScheduler::new_from_seed(seed, iterations), config).run(body),
-            Sched::Pct(d) => shuttle::Runner::new(shuttle::scheduler::PctScheduler::new_from_seed(seed, d.max(1) as usize, iterations), config).run(body),
-            Sched::RoundRobin => shuttle::Runner::new(shuttle::scheduler::RoundRobinScheduler::new(1), config).run(body),
-            Sched::Dfs(max) => shuttle::Runner::new(shuttle::scheduler::DfsScheduler::new(Some(max as usize), false), config).run(body),
-        };
-        iters.set(n);
-        Ok(())
-    });
-    match r {
-        Ok(()) => Ok(iters.get()),
-        Err(f) => {
-            let sig = if f.msg.contains("deadlock!") {
-                "deadlock".to_string()
-            } else if f.msg.contains("exceeded max_steps") {
-                "livelock-step-bound".to_string()
-            } else {
-                f.sig.clone()
-            };
-            Err(crate::engine::Failure::new(sig, f.msg))
-        }
-    }
-}
+pub use crate::sys::run_under;
